@@ -122,15 +122,14 @@ Qed.
 
 Lemma Codec_take_some : forall n b h t, Codec_take n b = Some (h, t) -> b = h ++ t /\ length h = n.
 Proof.
-  unfold Codec_take; intros n b h t H. destruct (length b <? n)%nat eqn:L; inversion H; subst.
-  split. symmetry; apply firstn_skipn. apply firstn_length_le. lia.
+  induction n as [|n IH]; intros b h t H; cbn [Codec_take] in H.
+  - inversion H; subst. auto.
+  - destruct b as [|x r]; try discriminate. destruct (Codec_take n r) as [[h' t']|] eqn:E; try discriminate.
+    inversion H; subst. destruct (IH _ _ _ E) as [-> L]. cbn. auto.
 Qed.
 Lemma Codec_take_app : forall h tail, Codec_take (length h) (h ++ tail) = Some (h, tail).
 Proof.
-  intros. unfold Codec_take. rewrite app_length.
-  replace (length h + length tail <? length h)%nat with false by lia.
-  rewrite firstn_app, Nat.sub_diag, firstn_all, firstn_O, app_nil_r.
-  rewrite skipn_app, Nat.sub_diag, skipn_all. reflexivity.
+  induction h as [|x h IH]; intros tail; cbn [length app Codec_take]; auto. rewrite IH. reflexivity.
 Qed.
 Lemma Codec_take_app_post : forall n b h t post, Codec_take n b = Some (h, t) -> Codec_take n (b ++ post) = Some (h, t ++ post).
 Proof.
